@@ -46,6 +46,11 @@ const (
 type state struct {
 	doc   *Doc // nil: none obtained yet -> fallback values
 	badAt int  // >= 0: an entry at this position cannot be applied
+	// nullKey: a legacy document whose proposer_config names this validator with
+	// the JSON value null (doc is the document without that member).  Nothing
+	// documents what that means: serving the validator with the fallback values
+	// or with default_config are both accepted (as is rejecting the document).
+	nullKey string
 }
 
 func (s state) document() *Doc {
@@ -117,6 +122,11 @@ func expect(states []state, v *Validator, fbFee string, fbGas uint64) expectatio
 		opts = append(opts, refOpts{nilAccountName: placeholderName})
 	}
 	for _, s := range states {
+		if s.nullKey != "" && strings.EqualFold(s.nullKey, v.PubKey) {
+			e.refs = append(e.refs, &RefOut{Fee: addr20(fbFee), Relays: map[string]*RefRelay{}, Matched: -1})
+			e.resolvable = true
+			e.allRelays = false
+		}
 		for _, o := range opts {
 			r := Resolve(s.document(), v, fbFee, fbGas, o)
 			if s.badAt >= 0 && (r.Matched < 0 || r.Matched >= s.badAt) {
@@ -319,7 +329,7 @@ type runner struct {
 	ctx    context.Context
 	locks  []lockField
 	sem    *semaphore.Weighted
-	cur    state
+	cur    []state // the configurations that may be in force (one, unless a refresh may legitimately go either way)
 	viols  []violation
 	labels map[string]bool
 	// for the non-trivial rule
@@ -380,8 +390,15 @@ func localise(d Doc) Doc {
 	return out
 }
 
-// prepare scripts the world for a refresh and returns the state in force after it.
-func (r *runner) prepare(o Outcome, before state) state {
+// nullify replaces the (empty) JSON object that follows the given key by null.
+func nullify(doc []byte, marker string, n int) []byte {
+	return []byte(strings.Replace(string(doc), marker, "null", n))
+}
+
+// prepare scripts the world for a refresh and returns the states that may be in
+// force after it.
+func (r *runner) prepare(o Outcome, before []state) []state {
+	nullRelayAddr := relayBase() + "/null-entry"
 	w := r.w
 	w.mu.Lock()
 	defer w.mu.Unlock()
@@ -396,7 +413,7 @@ func (r *runner) prepare(o Outcome, before state) state {
 		if d.V1 != nil {
 			r.labels["legacy-config-in-force"] = true
 		}
-		return state{doc: d, badAt: -1}
+		return []state{{doc: d, badAt: -1}}
 	case "unresolvable":
 		base := r.docs[o.Doc].V2
 		at := o.BadAt
@@ -410,7 +427,58 @@ func (r *runner) prepare(o Outcome, before state) state {
 		bad := *base
 		bad.Proposers = append(append(append([]Proposer(nil), base.Proposers[:at]...), Proposer{Proposer: zeroKey48}), base.Proposers[at:]...)
 		w.fetchBody = Render(&Doc{Version: 2, V2: &bad})
-		return state{doc: &Doc{Version: 2, V2: &good}, badAt: at}
+		return []state{{doc: &Doc{Version: 2, V2: &good}, badAt: at}}
+	case "json-null":
+		w.fetchBody = []byte(`null`)
+	case "json-null-ws":
+		w.fetchBody = []byte(" null \n")
+	case "json-true":
+		w.fetchBody = []byte(`true`)
+	case "json-number":
+		w.fetchBody = []byte(`0`)
+	case "json-string":
+		w.fetchBody = []byte(`"x"`)
+	case "json-array":
+		w.fetchBody = []byte(`[]`)
+	case "null-relay", "null-proposer", "null-proposer-relay":
+		// an otherwise valid version 2 document with one entry that is JSON null: not a configuration
+		base := r.docs[o.Doc].V2
+		if base == nil {
+			base = &V2{}
+		}
+		bad := *base
+		switch o.Kind {
+		case "null-relay":
+			bad.Relays = append(append([]Relay(nil), base.Relays...), Relay{Addr: nullRelayAddr})
+			w.fetchBody = []byte(strings.Replace(string(Render(&Doc{Version: 2, V2: &bad})), `"`+nullRelayAddr+`":{}`, `"`+nullRelayAddr+`":null`, 1))
+		case "null-proposer":
+			at := o.BadAt
+			if at > len(base.Proposers) {
+				at = len(base.Proposers)
+			}
+			bad.Proposers = append(append(append([]Proposer(nil), base.Proposers[:at]...), Proposer{Proposer: "NULL-ENTRY"}), base.Proposers[at:]...)
+			w.fetchBody = nullify(Render(&Doc{Version: 2, V2: &bad}), `{"proposer":"NULL-ENTRY"}`, 1)
+		default:
+			bad.Proposers = append(append([]Proposer(nil), base.Proposers...), Proposer{Proposer: r.c.Validators[0].PubKey, Relays: []PRelay{{Addr: nullRelayAddr}}})
+			w.fetchBody = []byte(strings.Replace(string(Render(&Doc{Version: 2, V2: &bad})), `"`+nullRelayAddr+`":{}`, `"`+nullRelayAddr+`":null`, 1))
+		}
+	case "legacy-null-entry":
+		base := r.docs[o.Doc].V1
+		if base == nil {
+			base = &V1{Default: V1Entry{Fee: hexOf(0x55, 20)}}
+		}
+		key := r.validator(o.BadAt).PubKey
+		good := *base
+		good.Proposers = nil
+		for _, p := range base.Proposers {
+			if !strings.EqualFold(p.Key, key) {
+				good.Proposers = append(good.Proposers, p)
+			}
+		}
+		bad := good
+		bad.Proposers = append(append([]V1Prop(nil), good.Proposers...), V1Prop{Key: key, V1Entry: V1Entry{Fee: "NULL-ENTRY"}})
+		w.fetchBody = nullify(Render(&Doc{Version: 0, V1: &bad}), `{"fee_recipient":"NULL-ENTRY"}`, 1)
+		return append(append([]state(nil), before...), state{doc: &Doc{Version: 0, V1: &good}, badAt: -1, nullKey: key})
 	case "fetch-error":
 		w.fetchErr = errors.New("scripted fetch failure")
 	case "malformed":
@@ -650,12 +718,12 @@ func (r *runner) step(si int, ops []Op) (cont bool, harness string) {
 		r.w.mu.Unlock()
 	}
 
-	states := []state{before}
+	states := before
 	switch {
 	case hasRefresh && len(ops) == 1:
-		states = []state{after}
+		states = after
 	case hasRefresh:
-		states = []state{before, after}
+		states = append(append([]state(nil), before...), after...)
 	}
 	bySlot := map[uint64][]providerCall{}
 	for _, pc := range r.w.callsSince(nCalls) {
@@ -754,7 +822,7 @@ func runCase(c *Case, known func(string) bool) (viols []violation, labels map[st
 	zerolog.SetGlobalLevel(zerolog.Disabled)
 	viper.Reset()
 	viper.SetDefault("timeout", "5s")
-	r := &runner{c: c, labels: map[string]bool{}, known: known, cur: state{badAt: -1}}
+	r := &runner{c: c, labels: map[string]bool{}, known: known, cur: []state{{badAt: -1}}}
 	for _, d := range c.Docs {
 		r.docs = append(r.docs, localise(d))
 	}
